@@ -49,6 +49,40 @@ End SStep.
 
 Definition subb (a b : ty) : bool := iterF sstep (S (size a + size b)) a b.
 
+(* ---------- side conditions used in the theorems ---------- *)
+Definition is_annot_like (t : ty) : bool := match t with TAnnot _ _ | TArray _ => true | _ => false end.
+
+(* the normal form typing produces: unions and argument lists are not empty, Annotated is not nested directly
+   in Annotated / around Array (typing flattens Annotated[Annotated[t, m], n]) *)
+Fixpoint wf (t : ty) : bool :=
+  match t with
+  | TUnion l => negb (is_nil l) && forallb wf l
+  | TGen _ l => negb (is_nil l) && forallb wf l
+  | TAnnot p _ => negb (is_annot_like p) && wf p
+  | TArray e => wf e
+  | TVar _ bd cs => match bd with Some x => wf x | None => true end && forallb wf cs
+  | _ => true
+  end.
+
+(* no TypeVar anywhere *)
+Fixpoint notv (t : ty) : bool :=
+  match t with
+  | TVar _ _ _ => false
+  | TUnion l => forallb notv l
+  | TGen _ l => forallb notv l
+  | TAnnot p _ => notv p
+  | TArray e => notv e
+  | _ => true
+  end.
+
+Definition is_top (t : ty) : bool := is_any t || is_noann t || is_unres t.
+(* a source that the reference does not decompose *)
+Definition atomic (a : ty) : bool :=
+  match a with
+  | TCls _ | TAny | TGen _ _ | TBare _ | TArray _ | TVar _ None [] => true
+  | _ => false
+  end.
+
 (* ---------- pipelines ---------- *)
 (* An edge: output `p` of f is a parameter of g annotated with t.
    - f declares an output axis that none of its inputs has (internal shape): what flows is not described by the
